@@ -588,13 +588,8 @@ func runDL(c *Case) {
 		}
 		settle()
 		done = append(done, labelOf[op])
-		// a cancel that closed the reader under a reading handler is the "stream cut" event
-		node.Lock()
-		if node.cutSeen {
-			node.cutSeen = false
-			done = append(done, "LEndCut")
-		}
-		node.Unlock()
+		// (a cancel that closes the reader under a reading handler cuts its stream short: an
+		// internal step of the model, not an event of the schedule)
 	}
 	// come to rest
 	var runErr error
